@@ -812,6 +812,19 @@ xar_read_header(struct archive_read *a, struct archive_entry *entry)
 		r = move_reading_point(a, xattr->offset);
 		if (r != ARCHIVE_OK)
 			break;
+		/*
+		 * The attribute is decoded with one call below, on the
+		 * input that is at hand: have all of its stored bytes there.
+		 */
+		if (xattr->length > 0 && xattr->length <= 1024 * 1024 &&
+		    __archive_read_ahead(a, (size_t)xattr->length, NULL)
+		    == NULL) {
+			archive_set_error(&(a->archive),
+			    ARCHIVE_ERRNO_FILE_FORMAT,
+			    "Truncated archive file");
+			r = ARCHIVE_FATAL;
+			break;
+		}
 		r = rd_contents_init(a, xattr->encoding,
 		    xattr->a_sum.alg, xattr->e_sum.alg);
 		if (r != ARCHIVE_OK)
